@@ -129,6 +129,13 @@ def run(ctx):
 
     ctx.rule("R09.9", "new subsystem: the manager of a function whose variable died is stopped, or - when not started yet - never started", floor=4)
     func_var_death_rule(ctx, program, "R09.9")
+    ctx.rule("R09.15", "legacy ownership: an EvalFunc is held by at most one object whose finaliser stops its triggers (fresh, transferred with remove_func(), "
+             "never shared through get_func()/.func)", floor=3)
+    single_owner_rule(ctx, program, "R09.15")
+    ctx.rule("R09.16", "new subsystem: a manager is in its context's manager set (which stop() walks) before its start is entered; while the context loads it is queued, not started", floor=2)
+    tracked_before_start_rule(ctx, program, "R09.16")
+    ctx.rule("R09.14", "new subsystem: the stop of a running manager whose function variable died begins inside the finaliser (eagerly started task), not in a later loop iteration", floor=1)
+    eager_stop_rule(ctx, program, "R09.14")
 
     ctx.rule("R09.10", "new subsystem @service: names registered by start() are exactly the names stop() removes; a refused name never releases another context's registration", floor=8)
     from .c12 import service_forms
@@ -355,6 +362,138 @@ def func_var_death_rule(ctx, program, rid):
                                "was loading runs in its old and its new definition")
         ctx.check(bool(ex) and bad is None, rid, uid, f"function variable dies while its manager is {st}", msg=f"FunctionDecoratorManager, status {st}: {bad or 'no exit'}",
                   key=f"func var death {st}", node=program.func(uid), rel="decorator.py")
+
+
+def _scheduler_kind(program, call):
+    """eager: the coroutine runs up to its first suspension inside the scheduling call; deferred: nothing of it runs before the next loop iteration."""
+    name = call_name(call) or ""
+    kw = {k.arg: k.value for k in call.keywords}
+    if "eager_start" in kw and isinstance(kw["eager_start"], ast.Constant):
+        return "eager" if kw["eager_start"].value else "deferred"
+    if name.endswith("hass.async_create_task") or name.endswith("hass.async_create_background_task"):
+        # Home Assistant's own helper: the default of eager_start is read from the installed library (host oracle, nothing is run)
+        import inspect
+        from homeassistant.core import HomeAssistant
+        meth = getattr(HomeAssistant, name.rsplit(".", 1)[1])
+        p = inspect.signature(meth).parameters.get("eager_start")
+        return "eager" if p is not None and p.default is True else "deferred"
+    if name in ("asyncio.create_task", "asyncio.ensure_future") or name.endswith("loop.create_task") or name.endswith("Function.create_task") or name == "create_task":
+        return "deferred"
+    return "unknown:" + name
+
+
+def eager_stop_rule(ctx, program, rid):
+    """The finaliser of a running manager hands stop() to a scheduler that starts it at once: until stop() has run, the dead function's listeners, queues and
+    services are still registered, and an occurrence delivered in the same loop iteration as the `del`/redefinition would still run it."""
+    uid = "decorator.py::FunctionDecoratorManager.__init__.on_func_var_deleted"
+    fn = program.func(uid)
+    sites = [n for n in body_walk(fn) if isinstance(n, ast.Call) and any(isinstance(a, ast.Call) and call_name(a) == "self.stop" for a in n.args)]
+    if not sites:
+        raise AnalysisError("on_func_var_deleted: no call that schedules self.stop() found")
+    for site in sites:
+        kind = _scheduler_kind(program, site)
+        ctx.check(kind == "eager", rid, uid, f"stop() of a dead function's manager is started eagerly ({call_name(site)})",
+                  msg=f"`{short(site)}`: stop() is handed to a {kind} scheduler: it first runs in a later loop iteration, so an occurrence arriving right after the function was deleted "
+                  f"or redefined still runs the old function (its listener/queue/service are still registered)", key="eager stop on variable death", node=site, rel="decorator.py")
+
+
+def single_owner_rule(ctx, program, rid):
+    """Legacy ownership: the finaliser (__del__) of an EvalFuncVar stops the triggers and services of the EvalFunc it holds.  So every object of a class
+    that inherits this finaliser must be the only such holder of its EvalFunc: at each construction site the function handed over is fresh (EvalFunc(...)),
+    transferred (remove_func(): the previous holder forgets it), or the result of a call - never one that another holder keeps (`.get_func()`, `.func`)."""
+    tree = program.module("eval.py")
+    classes = {c.name: c for c in tree.body if isinstance(c, ast.ClassDef)}
+
+    def mro(name):
+        out = []
+        while name in classes:
+            out.append(classes[name])
+            bases = [b.id for b in classes[name].bases if isinstance(b, ast.Name)]
+            name = bases[0] if bases else None
+        return out
+
+    def stopping_finaliser(name):
+        for c in mro(name):
+            for f in c.body:
+                if isinstance(f, ast.FunctionDef) and f.name == "__del__":
+                    return any(isinstance(n, ast.Call) and (call_name(n) or "").endswith("trigger_stop") for n in ast.walk(f)), f"{c.name}.__del__"
+        return False, None
+
+    holders = {n for n in classes if any(c.name == "EvalFuncVar" for c in mro(n))}
+    stopping = {n: stopping_finaliser(n) for n in holders}
+    if "EvalFuncVar" not in holders or not stopping["EvalFuncVar"][0]:
+        raise AnalysisError("EvalFuncVar.__del__ no longer stops the function's triggers: the ownership rule has lost its anchor")
+    n_sites = 0
+    for u in program.functions():
+        if not u.uid.startswith("eval.py::"):
+            continue
+        fn = u.node
+        for site in [n for n in body_walk(fn) if isinstance(n, ast.Call) and isinstance(n.func, ast.Name) and n.func.id in holders and n.args]:
+            n_sites += 1
+            stops, where = stopping[site.func.id]
+            arg = site.args[0]
+            srcs = [arg]
+            if isinstance(arg, ast.Name):
+                srcs = [a.value for a in body_walk(fn) if isinstance(a, ast.Assign) and any(isinstance(t, ast.Name) and t.id == arg.id for t in a.targets)] or [arg]
+            shared = []
+            for v in srcs:
+                if isinstance(v, ast.Await):
+                    v = v.value
+                if isinstance(v, ast.Call) and isinstance(v.func, ast.Attribute) and v.func.attr == "get_func":
+                    shared.append(short(v))
+                elif isinstance(v, ast.Attribute) and v.attr == "func":
+                    shared.append(short(v))
+            ok = not (stops and shared)
+            ctx.check(ok, rid, u.uid, f"{short(site)}: the function handed to the new holder is not kept by another holder",
+                      msg=f"`{short(site)}` in {u.uid}: the new {site.func.id} receives `{', '.join(shared)}`, which its previous holder keeps as well; {where} of whichever "
+                      f"holder dies first calls trigger_stop() on the shared function: its triggers are cancelled and its services removed while it is still bound",
+                      key=f"shared EvalFunc {site.func.id} <- {', '.join(shared)}", node=site, rel="eval.py")
+    if n_sites < 3:
+        raise AnalysisError(f"only {n_sites} EvalFuncVar construction sites found")
+
+
+def tracked_before_start_rule(ctx, program, rid):
+    """GlobalContext.stop() reaches the managers in self.dms.  A manager acquires registrations inside dm.start(), which suspends; so it must be in self.dms
+    before dm.start() is entered (a stop arriving while the start is suspended would otherwise miss it, and nothing removes its registrations later)."""
+    from ..absint import Const, ListV, ObjV, Sym
+    uid = "global_ctx.py::GlobalContext.create_decorator_manager"
+    dm = ObjV("dm", "FunctionDecoratorManager")
+    for auto in (True, False):
+        pol = FlowPolicy(program, may_raise_all=False, cancel=False, events=["dm.start"],
+                         summaries={"FunctionDecoratorManager": lambda i, n, a, k, c, o: [(c, dm)], "dm.validate": lambda i, n, a, k, c, o: [(c, Const(None))],
+                                    "dm.add": lambda i, n, a, k, c, o: [(c, Const(None))]})
+        seen = []
+
+        def on_start(i, n, a, k, c, o, seen=seen):
+            seen.append((c.heap.get("self.dms"), c.heap.get("self.dms_delay_start")))
+            return [(c.emit(("call", "dm.start")), Const(None))]
+
+        pol.summaries["dm.start"] = on_start
+        heap = {"self.dms": ListV((), "set"), "self.dms_delay_start": ListV((), "set"), "self.auto_start": Const(auto),
+                "dm.status": Sym(("clsattr", "DecoratorManagerStatus", "VALIDATED"))}
+        out = run_flow(program, uid, pol, args={"self": ObjV("self", "GlobalContext"), "decs": ListV((ObjV("d0", "Decorator"),), "list"), "ast_ctx": ObjV("actx", "AstEval"),
+                                                  "func_var": ObjV("fv", "EvalFuncVar")}, heap=heap)
+        bad = None
+        ex = exits(out)
+        for k, c, d in ex:
+            dms = c.heap.get("self.dms")
+            if k != "return":
+                bad = f"ends with {d}"
+            elif not (isinstance(dms, ListV) and dm in dms.items):
+                bad = "the validated manager is not recorded in the context's manager set"
+            elif not auto and dm not in getattr(c.heap.get("self.dms_delay_start"), "items", ()):
+                bad = "the manager of a context that is still loading is not queued for the delayed start"
+        if auto:
+            if len(seen) != 1:
+                bad = bad or f"dm.start() entered {len(seen)} times for a running context"
+            elif not (isinstance(seen[0][0], ListV) and dm in seen[0][0].items):
+                bad = ("dm.start() is entered before the manager is recorded in the context's manager set: a reload/unload arriving while that start is suspended does not stop it, "
+                       "its service/listeners stay registered for ever")
+        elif seen:
+            bad = "the manager is started although its context is still loading"
+        ctx.check(bool(ex) and bad is None, rid, uid, f"manager tracked before its start (context {'running' if auto else 'loading'})",
+                  msg=f"create_decorator_manager, context {'running' if auto else 'still loading'}: {bad or 'no exit'}", key=f"tracked before start auto={auto}",
+                  node=program.func(uid), rel="global_ctx.py")
 
 
 def load_file_identity_rule(ctx, program, rid):
